@@ -35,7 +35,7 @@ const (
 type mCol struct {
 	Name    string
 	Kind    mKind
-	Wide    bool // VARCHAR(40) instead of VARCHAR(16)
+	Wide    int // strings: 0 VARCHAR(16), 1 VARCHAR(40), 2 TEXT
 	NotNull bool
 	HasDef  bool
 	Def     string // model value of the default (mNull = DEFAULT NULL)
@@ -48,8 +48,11 @@ func (c mCol) sqlType() string {
 	case mBig:
 		return "BIGINT"
 	case mStr:
-		if c.Wide {
+		switch c.Wide {
+		case 1:
 			return "VARCHAR(40)"
+		case 2:
+			return "TEXT"
 		}
 		return "VARCHAR(16)"
 	case mDec:
@@ -107,7 +110,7 @@ func (c mCol) genVal(rt *rapid.T, label string) string {
 	}
 	d := mDomains[c.Kind]
 	n := len(d)
-	if c.Kind == mStr && c.Wide {
+	if c.Kind == mStr && c.Wide > 0 {
 		n++
 	}
 	i := rapid.IntRange(0, n-1).Draw(rt, label+".v")
@@ -786,7 +789,10 @@ type mSchemaChange struct {
 	Target string // drop / reorder / widen
 	Pos    string // "", " FIRST", " AFTER x"
 	DDL    string
-	done   bool
+	// Refused: dolt documents this change as a schema conflict (dolt_schema_conflicts), not as
+	// an automatic merge (INT -> BIGINT: typecompatibility.IsTypeChangeCompatible)
+	Refused bool
+	done    bool
 }
 
 func (sc *mSchemaChange) String() string { return fmt.Sprintf("%s@%d", sc.DDL, sc.At) }
@@ -817,7 +823,7 @@ func mGenSchemaChange(rt *rapid.T, sp mSpec) *mSchemaChange {
 	if kind == "widen" {
 		var cands []mCol
 		for _, c := range vals {
-			if c.Kind == mInt || (c.Kind == mStr && !c.Wide) {
+			if c.Kind == mInt || (c.Kind == mStr && c.Wide == 0) {
 				cands = append(cands, c)
 			}
 		}
@@ -827,9 +833,14 @@ func mGenSchemaChange(rt *rapid.T, sp mSpec) *mSchemaChange {
 			c := cands[rapid.IntRange(0, len(cands)-1).Draw(rt, "sc.target")]
 			sc.Kind, sc.Target = "widen", c.Name
 			if c.Kind == mInt {
+				// not a compatible change for dolt (only string/enum/set changes are): the merge must
+				// be refused as a documented schema conflict
 				c.Kind = mBig
+				sc.Refused = true
+			} else if c.Name != sp.Index && !c.HasDef && rapid.Bool().Draw(rt, "sc.text") {
+				c.Wide = 2
 			} else {
-				c.Wide = true
+				c.Wide = 1
 			}
 			sc.Col = c
 			sc.DDL = "ALTER TABLE {T} MODIFY COLUMN " + c.ddl()
@@ -965,21 +976,59 @@ func (sc *mSchemaChange) hook(s *mSide) func(step int) []string {
 	}
 }
 
+// mExpect is the expected outcome of one merge.
+type mExpect struct {
+	T     *vsql.Table     // merged rows, merged column set
+	Confs []vsql.Conflict // rows in the merged column set
+	// Alt lists the keys whose outcome the property leaves open (see mModelMerge: DROP COLUMN
+	// against a change of the dropped cell): instead of the conflict in Confs the merge may
+	// resolve the key to Alt[key] (nil = row absent) without a conflict.
+	Alt map[string]vsql.Row
+}
+
+// settle fixes the open keys by what dolt reported: a key dolt lists as conflicted must look
+// exactly like the conflict alternative, any other exactly like the resolved alternative.
+func (e *mExpect) settle(doltConflictKeys map[string]bool) (open int) {
+	if len(e.Alt) == 0 {
+		return 0
+	}
+	var keep []vsql.Conflict
+	for _, c := range e.Confs {
+		alt, isOpen := e.Alt[c.Key]
+		if !isOpen || doltConflictKeys[c.Key] {
+			keep = append(keep, c)
+			continue
+		}
+		if alt == nil {
+			delete(e.T.Rows, c.Key)
+		} else {
+			e.T.Rows[c.Key] = alt.Clone()
+		}
+	}
+	e.Confs = keep
+	return len(e.Alt)
+}
+
 // mModelMerge is the expected result of merging theirs into ours when at most one side (the
 // changer) made schema change sc: the three tables are expressed in the merged column set (the
 // changer's columns, matched by name; a column only the changer has is read as the changer's
 // own value where the changer has the row and as the column default elsewhere, so it never
 // conflicts and rows the other side inserted get the default) and merged with vsql.Merge3.
-// Two documented refinements (go/libraries/doltcore/merge/schema_merge_test.go):
-//   - DROP COLUMN: a base row whose dropped cell the other side changed is a conflict;
+// Refinements:
 //   - ADD COLUMN, ours = the side without the column: a conflicted row keeps ours, migrated to
 //     the merged schema with the default.
+//   - DROP COLUMN: for a base row whose dropped cell the other side changed, dolt's own tests
+//     (go/libraries/doltcore/merge/schema_merge_test.go, "left side column drop") expect a data
+//     conflict, while matching by name alone gives the plain merge of the remaining columns;
+//     the property statement does not decide between the two, so both are accepted per key
+//     (mExpect.Alt), each compared exactly.
 //
 // The returned conflict list carries rows in the merged column set; conflict-table expectations
 // are built by mConflictDisplay from the raw tables.
-func mModelMerge(base, ours, theirs *mSide, sc *mSchemaChange, oursChanged bool) (*vsql.Table, []vsql.Conflict) {
+func mModelMerge(base, ours, theirs *mSide, sc *mSchemaChange, oursChanged bool) *mExpect {
 	if sc == nil {
-		return vsql.Merge3(base.T, ours.T, theirs.T)
+		t, c := vsql.Merge3(base.T, ours.T, theirs.T)
+		return &mExpect{T: t, Confs: c}
 	}
 	a, o := ours, theirs
 	if !oursChanged {
@@ -1014,6 +1063,7 @@ func mModelMerge(base, ours, theirs *mSide, sc *mSchemaChange, oursChanged bool)
 		exp, confs = vsql.Merge3(b2, o2, a.T)
 		ours2 = o2
 	}
+	res := &mExpect{T: exp}
 	isConf := map[string]bool{}
 	for _, c := range confs {
 		isConf[c.Key] = true
@@ -1028,11 +1078,17 @@ func mModelMerge(base, ours, theirs *mSide, sc *mSchemaChange, oursChanged bool)
 		}
 	}
 	if sc.Kind == "drop" {
+		res.Alt = map[string]vsql.Row{}
 		bi, oi := base.colIdx(sc.Target), o.colIdx(sc.Target)
 		for _, k := range base.T.Keys() {
 			or, ok := o.T.Rows[k]
 			if !ok || or[oi] == base.T.Rows[k][bi] || isConf[k] {
 				continue
+			}
+			if r, ok := exp.Rows[k]; ok {
+				res.Alt[k] = r.Clone()
+			} else {
+				res.Alt[k] = nil
 			}
 			c := vsql.Conflict{Key: k, Base: b2.Rows[k].Clone()}
 			if r, ok := ours2.Rows[k]; ok {
@@ -1050,7 +1106,23 @@ func mModelMerge(base, ours, theirs *mSide, sc *mSchemaChange, oursChanged bool)
 		}
 		sort.Slice(confs, func(i, j int) bool { return confs[i].Key < confs[j].Key })
 	}
-	return exp, confs
+	res.Confs = confs
+	return res
+}
+
+// mDoltConflictKeys reads the keys dolt lists in dolt_conflicts_<table> (npk key columns; the
+// key is taken from whichever of base / ours / theirs is present).
+func mDoltConflictKeys(rt *rapid.T, se *vsql.Session, table string, pk []string) map[string]bool {
+	var sel []string
+	for _, p := range pk {
+		sel = append(sel, fmt.Sprintf("COALESCE(base_%s, our_%s, their_%s)", p, p, p))
+	}
+	res := se.MustQuery(rt, "SELECT "+strings.Join(sel, ",")+" FROM dolt_conflicts_"+table)
+	out := map[string]bool{}
+	for _, r := range res.Data {
+		out[strings.Join(r, "\x1f")] = true
+	}
+	return out
 }
 
 // mConflictDisplay builds the expected dolt_conflicts_t rows: base_* from the base table (base
